@@ -25,12 +25,13 @@ def sym_hhmm(path, tag):
 def sym_dayset(path, schedule_mod, tag="day"):
     """SymSet over the 7 Days members with free membership bits; returns (set, mask, guards)"""
     Days = schedule_mod.Days
-    members = list(Days)
+    members = [Days[n] for n in DAY_NAMES]
     guards = [SymBool(path.fresh_bool("%s_%s" % (tag, d.name))) for d in members]
     s = SymSet([(g, d) for g, d in zip(guards, members)])
     mask = 0
-    for g, d in zip(guards, members):
-        mask = mask + i_ite(g, 1 << (d.weekday + 1), 0)
+    for k, g in enumerate(guards):
+        # protocol: Monday 0x02 ... Sunday 0x80 (independent of the enum's own numbers)
+        mask = mask + i_ite(g, 1 << (k + 1), 0)
     return s, mask, guards
 
 
